@@ -75,6 +75,14 @@ def run(rep, work, rng, tier):
         lines += ['frame 0 0 ' + apihist.rand_lit(rng, names, chans, s2).text(), 'snap 0']
         lines += ['frame 0 - ' + apihist.rand_lit(rng, names, chans, s2).text(), 'snap 0']
         cases.append(('rs%d' % i, lines)); kinds['single-frame-replaced-other-subframe-count'] = kinds.get('single-frame-replaced-other-subframe-count', 0) + 1
+    # channels x sub-frames at and beyond 2^16 (the header word is 16 bits wide on disk, the object holds the exact product):
+    # declared objects, the rates set, one frame for the smallest
+    for i, (nch, ratio) in enumerate([(128, 512), (3, 21846), (255, 257), (2, 32768)] if tier != 'quick' else [(128, 512), (3, 21846)]):
+        chans = [b'k%03d' % j for j in range(nch)]
+        lines = ['new 0'] + ['analog 0 ' + hx(x) for x in chans] + ['snap 0', 'P.new x52415445 x', 'P.set F 0 1 41200000', 'param 0 x504f494e54', 'snap 0',
+                 'P.new x52415445 x', 'P.set F 0 1 %s' % harness.fhex(harness.f2bits(10.0 * ratio)), 'param 0 x414e414c4f47', 'snap 0', 'point 0 x6d31', 'snap 0']
+        if nch * ratio <= 70000: lines += ['frame 0 - ' + apihist.rand_lit(rng, [b'm1'], chans, ratio).text(), 'snap 0']
+        cases.append(('big%d' % i, lines)); kinds['channels-x-subframes-beyond-16-bits'] = kinds.get('channels-x-subframes-beyond-16-bits', 0) + 1
     (cres, cown, _), (mres, mown, _) = harness.run_both(cases, work, model_env={'EZ_INV': '1'}, shared=shared)
     # the Coq predicate (extracted) evaluated on every model snapshot: lines "I b0..b9"; strip them before comparing
     coq_reports = {}; typed = {}
